@@ -917,7 +917,8 @@ impl BigDecimal {
             term *= self;
             factorial *= n;
             // ∑ term=x^n/n!
-            result += impl_division(term.int_val.clone(), &factorial, term.scale, 117 + precision);
+            // (12 guard digits beyond the working precision, plus the argument's own digits)
+            result += impl_division(term.int_val.clone(), &factorial, term.scale, trimmed_precision + 12 + precision);
 
             let trimmed_result = result.with_prec(trimmed_precision);
             if prev_result == trimmed_result {
